@@ -6,7 +6,7 @@ Section GenIter.
 Variable A : Type.
 Variable zero : A.
 Variable ext : ident -> ident -> val A -> list (val A) -> option (val A).
-Notation call_at := (MiniGo.call_at A zero ext prog).
+Notation call_at F := (i_call (interp_at A zero ext prog F)).
 
 Definition mk_it (l : list A) (k : nat) : iter A := {| it_vals := l; it_slot := k |}.
 Definition it_rep (cls : val A) (i : iter A) : val A := it_val cls (it_vals i) (Z.of_nat (it_slot i)).
